@@ -30,22 +30,14 @@ inductive VTy where
   | sc (k : RKind)
   | sl (k : RKind)
   | anys               -- `[]interface{}` as an array literal builds it: nothing is claimed about the elements
+  | obj (t : OTy)      -- a struct or pointer-to-struct type: its members, as the checker types them
+  | mapAny             -- a map with string keys and `interface{}` elements (also what a map literal builds)
+  | any                -- an interface type: no claim about the value
   deriving DecidableEq
-
-def ValOfV (v : Val) : VTy → Prop
-  | .sc k => ValOfK v k
-  | .sl k => ArrOf v k
-  | .anys => ∃ xs, v = .arr .iface xs
 
 def VTy.isSlice : VTy → Bool
   | .sl _ | .anys => true
-  | .sc _ => false
-
-theorem arr_of_sliceV {v : Val} {V : VTy} (hV : V.isSlice = true) (hv : ValOfV v V) : ∃ et xs, v = .arr et xs := by
-  cases V with
-  | sc k => cases hV
-  | sl k => obtain ⟨et, xs, rfl, _, _⟩ := hv; exact ⟨_, _, rfl⟩
-  | anys => obtain ⟨xs, rfl⟩ := hv; exact ⟨_, _, rfl⟩
+  | .sc _ | .obj _ | .mapAny | .any => false
 
 /-- the element kind of a slice-of-scalars type -/
 def sliceElemKind (t : OTy) : Option RKind :=
@@ -65,11 +57,102 @@ def isAnySlice (t : OTy) : Bool :=
     | _ => false
   | none => false
 
+/-- a struct, or a pointer (of any depth) to a struct -/
+def isObjT (t : OTy) : Bool := t.deref.kind == .struct
+
+/-- `map[string]interface{}` (the key of string kind, the element an interface) -/
+def isMapAnyT (t : OTy) : Bool :=
+  match t with
+  | some ty =>
+    match ty.core with
+    | .map k e => k.kind == .string && e.kind == .iface
+    | _ => false
+  | none => false
+
 def vtyOf (t : OTy) : Option VTy :=
   if t.kind.isScalar then some (.sc t.kind)
   else match sliceElemKind t with
     | some k => some (.sl k)
-    | none => if isAnySlice t then some .anys else none
+    | none =>
+      if isAnySlice t then some .anys
+      else if isObjT t then some (.obj t)
+      else if isMapAnyT t then some .mapAny
+      else if t.kind == .iface then some .any
+      else none
+
+/-- a value conforms to a type, to depth `n`: scalars and slices as before; for a struct (or pointer to
+struct) type, every member the checker resolves on it (`fieldTypeT`, name resolution of the current code)
+can be fetched from the value — with or without `?.` — and conforms to the member's type to depth `n - 1`,
+and every method (or function-typed member) the checker resolves on it is an entry of the value that can be
+called.
+In particular a pointer member that is typed as a struct is not nil.  Types outside the fragment
+(interfaces, maps, functions) carry no claim. -/
+def Conf : Nat → Val → OTy → Prop
+  | 0, _, _ => True
+  | n + 1, v, t =>
+    match vtyOf t with
+    | some (.sc k) => ValOfK v k
+    | some (.sl k) => ArrOf v k
+    | some .anys => ∃ xs, v = .arr .iface xs
+    | some (.obj _) =>
+      ∃ nm p fs, v = .struct nm p fs ∧
+        (∀ name τ, fieldTypeT .asIs t name = some τ →
+          ∃ w, (∀ ns, fetchV v (.str name) ns = .ok w) ∧ Conf n w (some τ)) ∧
+        (∀ name fn im, methodTarget .asIs t name = some (fn, im) → ∃ id, lookupKv name fs = some (.fn id))
+    | some .mapAny => ∃ kvs, v = .map kvs
+    | some .any => True
+    | none => True
+
+def ValOfV (v : Val) : VTy → Prop
+  | .sc k => ValOfK v k
+  | .sl k => ArrOf v k
+  | .anys => ∃ xs, v = .arr .iface xs
+  | .obj t => ∀ n, Conf n v t
+  | .mapAny => ∃ kvs, v = .map kvs
+  | .any => True
+
+theorem arr_of_sliceV {v : Val} {V : VTy} (hV : V.isSlice = true) (hv : ValOfV v V) : ∃ et xs, v = .arr et xs := by
+  cases V with
+  | sc k => cases hV
+  | obj t => cases hV
+  | mapAny => cases hV
+  | any => cases hV
+  | sl k => obtain ⟨et, xs, rfl, _, _⟩ := hv; exact ⟨_, _, rfl⟩
+  | anys => obtain ⟨xs, rfl⟩ := hv; exact ⟨_, _, rfl⟩
+
+theorem vtyOf_obj {t : OTy} {t' : OTy} (h : vtyOf t = some (.obj t')) : t' = t := by
+  unfold vtyOf at h
+  (repeat' (split at h)) <;> cases h
+  rfl
+
+/-- conformance to every depth gives the value typing of the fragment -/
+theorem conf_valOfV {w : Val} {τ : OTy} {V : VTy} (hV : vtyOf τ = some V) (h : ∀ n, Conf n w τ) : ValOfV w V := by
+  cases V with
+  | obj t' =>
+    have := vtyOf_obj hV
+    subst this
+    exact h
+  | sc k => have := h 1; simp only [Conf, hV] at this; exact this
+  | sl k => have := h 1; simp only [Conf, hV] at this; exact this
+  | anys => have := h 1; simp only [Conf, hV] at this; exact this
+  | mapAny => have := h 1; simp only [Conf, hV] at this; exact this
+  | any => trivial
+
+theorem valOfV_conf {w : Val} {τ : OTy} {V : VTy} (hV : vtyOf τ = some V) (h : ValOfV w V) : ∀ n, Conf n w τ := by
+  intro n
+  cases n with
+  | zero => trivial
+  | succ n =>
+    cases V with
+    | obj t' =>
+      have := vtyOf_obj hV
+      subst this
+      exact h (n + 1)
+    | sc k => simp only [Conf, hV]; exact h
+    | sl k => simp only [Conf, hV]; exact h
+    | anys => simp only [Conf, hV]; exact h
+    | mapAny => simp only [Conf, hV]; exact h
+    | any => simp only [Conf, hV]
 
 theorem vtyOf_scalar {t : OTy} (h : ScalarT t) : vtyOf t = some (.sc t.kind) := by
   unfold vtyOf
@@ -81,9 +164,7 @@ theorem vtyOf_sc {t : OTy} {k : RKind} (h : vtyOf t = some (.sc k)) : ScalarT t 
   by_cases hs : t.kind.isScalar = true
   · rw [if_pos hs] at h; cases h; exact ⟨hs, rfl⟩
   · rw [if_neg hs] at h
-    cases hk : sliceElemKind t <;> rw [hk] at h <;> simp only [] at h
-    · split at h <;> cases h
-    · cases h
+    (repeat' (split at h)) <;> cases h
 
 theorem vtyOf_sl {t : OTy} {k : RKind} (h : vtyOf t = some (.sl k)) : sliceElemKind t = some k := by
   unfold vtyOf at h
@@ -91,7 +172,9 @@ theorem vtyOf_sl {t : OTy} {k : RKind} (h : vtyOf t = some (.sl k)) : sliceElemK
   · rw [if_pos hs] at h; cases h
   · rw [if_neg hs] at h
     cases hk : sliceElemKind t with
-    | none => rw [hk] at h; simp only [] at h; split at h <;> cases h
+    | none =>
+      rw [hk] at h; simp only [] at h
+      (repeat' (split at h)) <;> cases h
     | some k' => rw [hk] at h; cases h; rfl
 
 /-- facts about a slice-of-scalars type -/
@@ -312,15 +395,16 @@ theorem spec2_index (hi : E .index) (cfg : CheckCfg) (c : SCfg) (cs : List OTy) 
           | ok v => rw [hfe] at hf; exact hf
           | error e => rw [hfe] at hf; exact hf
 
-theorem lengthV_ok {v : Val} {V : VTy} (hV : V = .sc .string ∨ V.isSlice = true) (hv : ValOfV v V) :
+theorem lengthV_ok {v : Val} {V : VTy} (hV : V = .sc .string ∨ V.isSlice = true ∨ V = .mapAny) (hv : ValOfV v V) :
     ∃ n, lengthV v = .ok n := by
-  rcases hV with rfl | hsl
+  rcases hV with rfl | hsl | rfl
   · obtain ⟨x, rfl⟩ := hv; exact ⟨_, rfl⟩
   · obtain ⟨et, xs, rfl⟩ := arr_of_sliceV hsl hv; exact ⟨_, rfl⟩
+  · obtain ⟨kvs, rfl⟩ := hv; exact ⟨_, rfl⟩
 
 theorem spec2_len (cfg : CheckCfg) (c : SCfg) (cs : List OTy) (m : Meta) (a : Node)
     (iha : Spec2 E cfg c cs a)
-    (ha : ∀ t, synth cfg cs a = some t → ∃ V, vtyOf t = some V ∧ (V = .sc .string ∨ V.isSlice = true)) :
+    (ha : ∀ t, synth cfg cs a = some t → ∃ V, vtyOf t = some V ∧ (V = .sc .string ∨ V.isSlice = true ∨ V = .mapAny)) :
     Spec2 E cfg c cs (.builtin m "len" [a]) := by
   intro τ V hs hV st hst
   simp (config := {decide := true}) only [synth, if_true] at hs
@@ -395,8 +479,9 @@ theorem strict_binary2 {P : Ctx → Prop} (c : SCfg) (l r : Node) (Vl Vr V : VTy
 theorem spec2_in (cfg : CheckCfg) (c : SCfg) (cs : List OTy) (m : Meta) (op : String) (l r : Node)
     (hop : op = "in" ∨ op = "not in")
     (ihl : Spec2 E cfg c cs l) (ihr : Spec2 E cfg c cs r)
-    (hl : ∀ t, synth cfg cs l = some t → ∃ V, vtyOf t = some V)
-    (hr : ∀ t, synth cfg cs r = some t → ∃ Vr, vtyOf t = some Vr ∧ Vr.isSlice = true) :
+    (hlr : ∀ lt rt, synth cfg cs l = some lt → synth cfg cs r = some rt →
+      ∃ Vl Vr, vtyOf lt = some Vl ∧ vtyOf rt = some Vr ∧
+        ∀ a b, ValOfV a Vl → ValOfV b Vr → ∃ res, inV a b = .ok res) :
     Spec2 E cfg c cs (.binary m op l r) := by
   intro τ V hs hV st hst
   simp only [synth] at hs
@@ -409,8 +494,7 @@ theorem spec2_in (cfg : CheckCfg) (c : SCfg) (cs : List OTy) (m : Meta) (op : St
       rw [hsl, hsr] at hs
       simp only [] at hs
       have hrule := toOption'_some hs
-      obtain ⟨Vl, hVl⟩ := hl lt hsl
-      obtain ⟨Vr, hVr, hVrs⟩ := hr rt hsr
+      obtain ⟨Vl, Vr, hVl, hVr, hin⟩ := hlr lt rt hsl hsr
       obtain ⟨e1, _, ev1⟩ := ihl lt Vl hsl hVl st hst
       have hst1 := visit_colls cfg l st
       rcases hlv : visit cfg l st with ⟨l', lt', st1⟩
@@ -436,9 +520,9 @@ theorem spec2_in (cfg : CheckCfg) (c : SCfg) (cs : List OTy) (m : Meta) (op : St
       have tailok : ∀ (neg : Bool) a b s', ValOfV a Vl → ValOfV b Vr →
           match (((SM.lift (inV a b)).bind' fun r => pure (Val.bool (if neg then !r else r)) : SM Val) s').1 with
           | .ok v => ValOfV v (.sc .bool) | .error e => E e := by
-        intro neg a b s' _ hb
-        obtain ⟨et, xs, rfl⟩ := arr_of_sliceV hVrs hb
-        simp only [inV, SM.lift, SM.bind', SM.pure', pure]
+        intro neg a b s' ha hb
+        obtain ⟨res, hres⟩ := hin a b ha hb
+        simp only [hres, SM.lift, SM.bind', SM.pure', pure]
         exact ⟨_, rfl⟩
       rcases hop with rfl | rfl
       · show match (eval c ctx (.binary { m with kd := OTy.kind boolTy } "in" l' r') s).1 with
